@@ -12,7 +12,11 @@ let parse_cmd tok =
   | ["C"; i] -> Cancel (nat_of_int (int_of_string i))
   | ["W"; i] -> CancelWait (nat_of_int (int_of_string i))
   | ["X"; i] -> CancelWait2 (nat_of_int (int_of_string i))
-  | ["D"; o] -> Dispatch (o = "1")
+  | ["D"; o] -> Dispatch (o = "1", [])
+  | ["D"; o; chs] ->
+      let b c = (c = '1') in
+      Dispatch (o = "1", List.map (fun x -> { ch_ti = b x.[0]; ch_tn = b x.[1]; ch_hn = b x.[2]; ch_hi = b x.[3] })
+                           (List.filter (fun x -> String.length x = 4) (String.split_on_char ',' chs)))
   | ["L"] -> PollOnce
   | _ -> failwith ("cmd " ^ tok)
 let parse_list s = List.map parse_cmd (split_ws s)
@@ -81,7 +85,8 @@ let () = each_line (fun line ->
           | Some l, Some c' ->
               let nlog = List.length c'.log - List.length !c.log in
               let evs = List.filter_map ev_s (List.rev (take nlog c'.log)) in
-              Buffer.add_string b (Printf.sprintf " %d:%s:%s:%s" ti (label_s l) (words c') (String.concat "" (List.map (fun b -> string_of_int ((if b.pol then 1 else 0) + (if b.intr then 2 else 0))) c'.boxes)));
+              Buffer.add_string b (Printf.sprintf " %d:%s:%s:%s:%s" ti (label_s l) (words c') (String.concat "" (List.map (fun b -> string_of_int ((if b.pol then 1 else 0) + (if b.intr then 2 else 0))) c'.boxes))
+                (String.concat "," (List.map (fun b -> Printf.sprintf "%d.%d.%s%s" (List.length b.qn) (List.length b.qi) (if b.hasn then "1" else "0") (if b.hasi then "1" else "0")) c'.boxes)));
               if evs <> [] then Buffer.add_string b (":" ^ String.concat "+" evs);
               c := c'
           | _ -> Buffer.add_string b (Printf.sprintf " %d:-" ti)
